@@ -622,7 +622,7 @@ func runCase(c driver.Case) driver.Result {
 			sub = ro.Timeout[int](d)(s.Observable()).SubscribeWithContext(ctx, rec.Raw[int](r))
 		case 6:
 			name = "BufferWithTimeOrCount"
-			sub = ro.BufferWithTimeOrCount[int](1000, d)(s.Observable()).SubscribeWithContext(ctx, rec.Raw[[]int](r))
+			sub = ro.BufferWithTimeOrCount[int](3, d)(s.Observable()).SubscribeWithContext(ctx, rec.Raw[[]int](r)) // count-triggered buffers go on for as long as the stream lives
 		default:
 			name = "ThrottleTime"
 			sub = ro.ThrottleTime[int](d)(s.Observable()).SubscribeWithContext(ctx, rec.Raw[int](r))
